@@ -66,7 +66,7 @@ Section Bytes.
       - split; [eapply local_query_bytes; eassumption|]. apply local_query_fits in Q. lia. }
     assert (Hnew : m_total_bytes (bump_new (f_metrics f) (snd c)) = m_total_bytes (f_metrics f) + sum_lens (firstn (N.to_nat (N.max 1 1)) (c :: rest))).
     { cbn [bump_new m_total_bytes]. change (N.to_nat (N.max 1 1)) with 1%nat. cbn [firstn]. rewrite sum_lens_cons. cbn [sum_lens fold_right]. lia. }
-    unfold step. destruct (match ans with Some a => Some a | None => local_query f (map fst (c :: rest)) end) as [[n s]|] eqn:Q.
+    unfold step, step_with. destruct (match ans with Some a => Some a | None => local_query f (map fst (c :: rest)) end) as [[n s]|] eqn:Q.
     2:{ cbn [fst snd]. rewrite add_new_chunk_metrics. exact Hnew. }
     destruct (Hq n s eq_refl) as [Q1 Q2].
     destruct (continues f s).
